@@ -75,6 +75,34 @@ def search(ctx, N):
                     if not np.all(np.abs(np.ravel(hd) - np.diag(H0)) <= tolh + 1e3 * np.ravel(hinfo.error_estimate)):
                         ctx.violation('hessdiag-value:%s:%d' % (method, order), 'Hessdiag(method=%r, order=%d) differs from the diagonal of the analytic Hessian by %.3g' % (
                             method, order, float(np.max(np.abs(np.ravel(hd) - np.diag(H0))))), desc)
+    # complex-valued f with the real-step methods (a complex constant times a real quadratic): the Hessian is that constant times Q, also when the
+    # user's step sequence leaves a single estimate per entry (num_steps 1, 2, 3, 5) -- the selection code has its own path for complex estimates
+    for k in range(6):
+        dim = 1 + k % 3
+        Q = rng.normal(size=(dim, dim))
+        Q = (Q + Q.T) / 2
+        cst = complex(1.0, 0.5)
+
+        def fc(x, Q=Q):          # noqa
+            return cst * (0.5 * np.dot(x, np.dot(Q, x)) + np.sum(x))
+        x = rng.uniform(-1, 1, size=dim)
+        for method in ('central', 'central2', 'forward', 'backward'):
+            for ns in (None, 1, 2, 3, 5, 8):
+                kw = {} if ns is None else {'step': nd.MinStepGenerator(base_step=1e-3, step_ratio=2.0, num_steps=ns)}
+                desc = {'Q': Q.tolist(), 'x': x.tolist(), 'method': method, 'num_steps': ns, 'f': '(1+0.5j) * (x.Q.x/2 + sum(x))'}
+                for cname in ('Hessian', 'Hessdiag'):
+                    try:
+                        H = np.asarray(getattr(nd, cname)(fc, method=method, **kw)(x))
+                    except Exception as ex:   # noqa
+                        ctx.violation('%s-raises:%s:complex-f' % (cname.lower(), method), 'nd.%s(f, method=%r%s)(x) raises %r for a complex-valued f (real-step method)' % (
+                            cname, method, '' if ns is None else ', step=MinStepGenerator(base_step=1e-3, step_ratio=2, num_steps=%d)' % ns, ex), desc)
+                        continue
+                    ctx.count(1, (cname.lower() + '-complex-f', method, ns))
+                    want = cst * (Q if cname == 'Hessian' else np.diag(Q))
+                    tol = 1e-4 * (1 + np.max(np.abs(Q))) * (100 if method in ('forward', 'backward') else 1)
+                    if H.shape != want.shape or not np.all(np.abs(H - want) <= tol) or (cname == 'Hessian' and not np.array_equal(H, H.T)):
+                        ctx.violation('%s-value:%s:complex-f' % (cname.lower(), method), 'nd.%s(method=%r, num_steps=%r) of (1+0.5j) x quadratic differs from (1+0.5j) Q by %.3g (or is not symmetric)' % (
+                            cname, method, ns, float(np.max(np.abs(H - want))) if H.shape == want.shape else float('nan')), desc)
     # scalar x (one variable)
     for method in METHODS:
         try:
